@@ -4,11 +4,31 @@ import TlxVerif.Gen.C14Tables
 C14 — the four compress functions as written in tlx/digest/*.cpp (tables and amounts taken
 from the generated `Gen/C14Tables.lean`), and the four classes as instances of the shared
 state machine.  `rol32/ror32/rol64/ror64` are `BitVec.rotateLeft/rotateRight` (x86 `rol/ror`
-instructions in the sources; intrinsic semantics is part of the trusted base).
+instructions in the sources; intrinsic semantics is part of the trusted base).  The load /
+store helpers are transliterated (`load32h`, `loadLoop`, `storeLoop`) and proved to be the
+big- and little-endian conversions in `Proofs/C14LoadStore.lean`.
 -/
 namespace TlxVerif.C14.Model
 
 open TlxVerif.C14
+
+/-! ### the one-line load / store helpers of the sources, as written -/
+
+/-- sha1 `load32h`, sha256 `load32`:
+    `(u32(y[0]) << 24) | (u32(y[1]) << 16) | (u32(y[2]) << 8) | (u32(y[3]) << 0)` -/
+def load32h (y : Bytes) : BitVec 32 :=
+  ((y.getD 0 0).setWidth 32 <<< 24) ||| ((y.getD 1 0).setWidth 32 <<< 16) |||
+  ((y.getD 2 0).setWidth 32 <<< 8) ||| ((y.getD 3 0).setWidth 32 <<< 0)
+
+/-- md5 `load32l` (`sh i = i*8`, n = 4), sha512 `load64` (`sh i = (7-i)*8`, n = 8):
+    `res = 0; for (i = 0; i != n; ++i) res |= uintW(y[i]) << sh(i);` -/
+def loadLoop (w n : Nat) (sh : Nat → Nat) (y : Bytes) : BitVec w :=
+  (List.range n).foldl (fun res i => res ||| ((y.getD i 0).setWidth w <<< sh i)) 0
+
+/-- `store32/store32h/store64/store64h` (`sh i = (n-1-i)*8`), `store32l/store64l` (`sh i = i*8`):
+    `for (i = 0; i != n; ++i) y[i] = (x >> sh(i)) & 255;` -/
+def storeLoop {w : Nat} (n : Nat) (sh : Nat → Nat) (x : BitVec w) : Bytes :=
+  (List.range n).map fun i => ((x >>> sh i) &&& 255).setWidth 8
 
 /-- `loadNN(buf + k*i)` for `i < n`: the words of a block -/
 def loadWords {w : Nat} (ld : Bytes → BitVec w) (k n : Nat) (buf : Bytes) : List (BitVec w) :=
@@ -33,7 +53,7 @@ def step (fn : Word → Word → Word → Word) (W : List Word) (s : List Word) 
   | _ => s
 
 def compress (state : List Word) (buf : Bytes) : List Word :=
-  let W := loadWords (leWord 32) 4 16 buf
+  let W := loadWords (loadLoop 32 4 (fun i => i * 8)) 4 16 buf
   let s := state
   let s := (List.range' 0 16).foldl (step F W) s
   let s := (List.range' 16 16).foldl (step G W) s
@@ -50,9 +70,9 @@ def params : Params (List Word) where
   fillTo := Gen.md5Class.2.2.1
   lenPos := Gen.md5Class.2.2.2.1
   compress := compress
-  storeLen := leBytes 8
+  storeLen := storeLoop 8 (fun i => i * 8)                     -- store64l
   init := Gen.md5Init
-  output := fun s => s.flatMap (leBytes 4)
+  output := fun s => s.flatMap (storeLoop 4 (fun i => i * 8))  -- store32l
 end MD5
 
 /-! ### SHA-1 (sha1.cpp) -/
@@ -86,7 +106,7 @@ def rounds (W : List Word) (s : List Word) : List Word :=
       ((List.range' lo (hi - lo)).foldl (step (fnOf fname) k ra rb W) s, hi)) (s, 0)).1
 
 def compress (state : List Word) (buf : Bytes) : List Word :=
-  let W := loadWords (beWord 32) 4 16 buf
+  let W := loadWords load32h 4 16 buf
   -- for (i = 16; i < 80; i++) W[i] = rol32(W[i-3] ^ W[i-8] ^ W[i-14] ^ W[i-16], 1)
   let W := (List.range' 16 (Gen.sha1Expand.getD 0 0 - 16)).foldl (fun W i =>
     W ++ [(W.getD (i - Gen.sha1Expand.getD 1 0) 0 ^^^ W.getD (i - Gen.sha1Expand.getD 2 0) 0 ^^^
@@ -100,9 +120,9 @@ def params : Params (List Word) where
   fillTo := Gen.sha1Class.2.2.1
   lenPos := Gen.sha1Class.2.2.2.1
   compress := compress
-  storeLen := beBytes 8
+  storeLen := storeLoop 8 (fun i => (7 - i) * 8)                     -- store64h
   init := Gen.sha1Init
-  output := fun s => s.flatMap (beBytes 4)
+  output := fun s => s.flatMap (storeLoop 4 (fun i => (3 - i) * 8))  -- store32h
 end SHA1
 
 /-! ### SHA-256 / SHA-512 (sha256.cpp, sha512.cpp): same code at two word sizes -/
@@ -145,7 +165,7 @@ def rotate (S : List Word) : List Word :=
   | _ => S
 
 def compress (state : List Word) (buf : Bytes) : List Word :=
-  let W := SHA2.expand Gen.sha256Rot 64 (loadWords (beWord 32) 4 16 buf)
+  let W := SHA2.expand Gen.sha256Rot 64 (loadWords load32h 4 16 buf)
   let S := (List.range 64).foldl (fun S i =>
     rotate (SHA2.RND Gen.sha256Rot Gen.sha256K W S [0, 1, 2, 3, 4, 5, 6, 7] i)) state
   List.zipWith (· + ·) state S
@@ -156,9 +176,9 @@ def params : Params (List Word) where
   fillTo := Gen.sha256Class.2.2.1
   lenPos := Gen.sha256Class.2.2.2.1
   compress := compress
-  storeLen := beBytes 8
+  storeLen := storeLoop 8 (fun i => (7 - i) * 8)                     -- store64
   init := Gen.sha256Init
-  output := fun s => s.flatMap (beBytes 4)
+  output := fun s => s.flatMap (storeLoop 4 (fun i => (3 - i) * 8))  -- store32
 end SHA256
 
 namespace SHA512
@@ -167,7 +187,7 @@ abbrev Word := BitVec 64
 /-- `for (i = 0; i < 80; i += 8) { RND(S[0],…,S[7], i+0); RND(S[7],S[0],…,S[6], i+1); … }`:
     the argument rotation of the unrolled calls comes from the source (`Gen.sha512RndOrder`) -/
 def compress (state : List Word) (buf : Bytes) : List Word :=
-  let W := SHA2.expand Gen.sha512Rot 80 (loadWords (beWord 64) 8 16 buf)
+  let W := SHA2.expand Gen.sha512Rot 80 (loadWords (loadLoop 64 8 (fun i => (7 - i) * 8)) 8 16 buf)
   let S := (List.range (Gen.sha512RoundLoop.1 / Gen.sha512RoundLoop.2)).foldl (fun S j =>
     (Gen.sha512RndOrder.zipIdx).foldl (fun S (p : List Nat × Nat) =>
       SHA2.RND Gen.sha512Rot Gen.sha512K W S p.1 (Gen.sha512RoundLoop.2 * j + p.2)) S) state
@@ -179,9 +199,9 @@ def params : Params (List Word) where
   fillTo := Gen.sha512Class.2.2.1
   lenPos := Gen.sha512Class.2.2.2.1
   compress := compress
-  storeLen := beBytes 8
+  storeLen := storeLoop 8 (fun i => (7 - i) * 8)                     -- store64
   init := Gen.sha512Init
-  output := fun s => s.flatMap (beBytes 8)
+  output := fun s => s.flatMap (storeLoop 8 (fun i => (7 - i) * 8))  -- store64
 end SHA512
 
 /-! ### output forms -/
